@@ -7,7 +7,7 @@ Union/Intersect/Sub/Xor is executed by the harness (go/cmd/c05), which appends t
   lattice area  rectilinear polygons on the integer lattice of [0,N]^2, N <= 12: `EO.validateLattice` — decided
                 EXHAUSTIVELY per call (Props/C05.lean `validateLattice_sound`: a `true` verdict implies the Boolean law
                 at every point of every open unit cell, and nothing is inside outside the square);
-  general area  polygons in general position (generator rejects the rest): `EO.validatePoints` on 120 sample points
+  general area  polygons in general position (generator rejects the rest): `EO.validateGeneral` on 100 sample points
                 per call that keep a margin of 1/64 from every edge of A, B and R — SAMPLING with a Lean oracle; the
                 harness adds up to ~60 candidates taken from the RESULT itself (edge midpoints pushed to both sides,
                 vertex averages) so that area only the result has is judged; about a fifth of these calls have a
@@ -190,7 +190,8 @@ def run(ctx):
     ]
     ctx.assumptions += [
         "nothing universal is claimed about the clipper: the claim is per validated call",
-        "general-position calls are judged on sample points only (120 candidates per call, margin 1/64 from every "
+        "general-position calls are judged on sample points only (100 candidates per call plus up to ~60 taken from "
+        "the result, margin 1/64 - for a third of the float64 calls 1/1024 - from every "
         "edge of A, B and R); lattice calls are decided at every point of every open unit cell, points on lattice "
         "lines are not judged",
     ]
